@@ -274,13 +274,13 @@ def run_all(hs, tier, jobs, log_dir, progress=None):
     return results
 
 
-def playback(h, replay_dir, log_dir):
+def playback(h, replay_dir, log_dir, slot=0):
     """Ask Kani for a concrete counterexample test, then run it natively (dev profile).
 
     Returns (replay_path, reproduced: bool|None, note). reproduced None = playback not possible
     (e.g. the harness uses a stub, which playback does not apply)."""
     os.makedirs(replay_dir, exist_ok=True)
-    td = os.path.join(BUILD, "playback")
+    td = os.path.join(BUILD, f"playback{slot}")
     cmd = kani_cmd(h, td, extra=["-Z", "concrete-playback", "--concrete-playback=print"])
     log = os.path.join(log_dir, h.name + ".playback.log")
     try:
@@ -304,12 +304,12 @@ def playback(h, replay_dir, log_dir):
     open(path, "w").write(header + body)
     if h.stubs:
         return (path, None, "harness uses stubs; Kani playback does not apply stubs, native replay skipped")
-    ok, note = run_playback_file(path, h.module, log_dir)
+    ok, note = run_playback_file(path, h.module, log_dir, slot)
     return (path, ok, note)
 
 
-def run_playback_file(path, module, log_dir):
-    scratch = os.path.join(BUILD, "playback_crate")
+def run_playback_file(path, module, log_dir, slot=0):
+    scratch = os.path.join(BUILD, f"playback_crate{slot}")
     if os.path.exists(scratch):
         shutil.rmtree(scratch)
     shutil.copytree(KANI_DIR, scratch, ignore=shutil.ignore_patterns("target"))
@@ -318,7 +318,7 @@ def run_playback_file(path, module, log_dir):
     with open(os.path.join(scratch, "src", module + ".rs"), "a") as f:
         f.write("\n" + body + "\n")
     env = kani_env()
-    env["CARGO_TARGET_DIR"] = os.path.join(BUILD, "playback_target")
+    env["CARGO_TARGET_DIR"] = os.path.join(BUILD, f"playback_target{slot}")
     os.makedirs(log_dir, exist_ok=True)
     log = os.path.join(log_dir, os.path.basename(path) + ".run.log")
     reproduced = False
